@@ -7,6 +7,8 @@ import MidnightZK.Model.C12.Zn
 import MidnightZK.Model.C12.Fft
 import MidnightZK.Model.C12.Poly
 import MidnightZK.Model.C12.BatchAdd
+import MidnightZK.Model.C12.ParSites
+import MidnightZK.Model.C12.MsmTrace
 import MidnightZK.Gen.C12Consts
 /-! Line-protocol handler of property C12. -/
 namespace MidnightZK.C12.Driver
@@ -95,15 +97,27 @@ def fmtFrOpt (l : Option (List Fr)) : String :=
   | none => "panic"
 def frDomain (j k : Nat) : Option (Domain Fr) := Domain.new frConsts frInv fr frPow j k
 
+/-- The conversions run with their `parallelize` passes spelled out on `t` threads
+(`Model/C12/ParSites.lean`; `domain_conversions_par_indep` ties them to the thread-free forms). -/
 def domainOp (op : String) (t : Nat) (d : Domain Fr) (vals : List Fr) : Option (Option (List Fr)) :=
   match op with
-  | "l2c" => some (d.lagrangeToCoeff t vals)
+  | "l2c" => some (d.lagrangeToCoeffPar t vals)
   | "c2l" => some (d.coeffToLagrange t vals)
-  | "c2e" => some (d.coeffToExtended t vals)
-  | "e2c" => some (d.extendedToCoeff t vals)
-  | "e2l" => some (d.extendedToLagrange t vals)
-  | "divvanish" => some (d.divideByVanishingPoly vals)
+  | "c2e" => some (d.coeffToExtendedPar t vals)
+  | "e2c" => some (d.extendedToCoeffPar t vals)
+  | "e2l" => some (d.extendedToLagrangePar t vals)
+  | "divvanish" => some (d.divideByVanishingPolyPar t vals)
   | _ => none
+
+/-- `a,b;c,d;…` (`.` = no list at all, `-` = an empty inner list). -/
+def parseNatLists? (s : String) : Option (List (List Nat)) :=
+  if s = "." then some [] else (s.splitOn ";").mapM parseNatList?
+
+def frOptInv (a : Fr) : Option Fr := if a.val % Gen.frModulus = 0 then none else some (frInv a)
+
+def fmtPoints (l : List Fr) : String :=
+  if l.isEmpty then "-" else
+  " ".intercalate (l.map (fun e => fmtAffine (toAffine bls12381G1.p (bls12381G1.mulGenTable blsTable e.val))))
 
 def answer (line : String) : String :=
   match words line with
@@ -165,7 +179,7 @@ def answer (line : String) : String :=
     match t.toNat?, k.toNat?, parseNatList? logs with
     | some t, some k, some logs =>
       if t = 0 then "bad-op" else
-      match gToLagrange frConsts t (fr Gen.twoInv) (fr Gen.rootOfUnityInv) frPow (frList logs) k with
+      match gToLagrangePar frConsts t (fr Gen.twoInv) (fr Gen.rootOfUnityInv) frPow (frList logs) k with
       | some l => " ".intercalate (l.map (fun e => fmtAffine (toAffine bls12381G1.p (bls12381G1.mulGenTable blsTable e.val))))
       | none => "panic"
     | _, _, _ => "bad-op"
@@ -211,6 +225,68 @@ def answer (line : String) : String :=
       | some d => fmtFrOpt (d.fromVec (frList vals))
       | none => "panic"
     | _, _, _ => "bad-op"
+  | ["dpz", t, into, vals] =>
+    -- `distribute_powers_zeta` on a slice of any length (hook), `t` threads
+    match t.toNat?, parseNatList? vals, frDomain 1 1 with
+    | some t, some vals, some d =>
+      if t = 0 ∨ ¬ (into = "0" ∨ into = "1") then "bad-op" else
+      fmtFr (distributePowersZetaPar d t (frList vals) (into = "1"))
+    | _, _, _ => "bad-op"
+  | ["polyop", t, op, a, b] =>
+    match t.toNat?, parseNatList? a, parseNatList? b with
+    | some t, some a, some b =>
+      if t = 0 then "bad-op" else
+      if op = "add" ∨ op = "addassign" then fmtFrOpt (polyZipPar t (· + ·) (frList a) (frList b))
+      else if op = "sub" then fmtFrOpt (polyZipPar t (· - ·) (frList a) (frList b))
+      else "bad-op"
+    | _, _, _ => "bad-op"
+  | ["polyscale", t, rhs, a] =>
+    match t.toNat?, parseNat? rhs, parseNatList? a with
+    | some t, some rhs, some a => if t = 0 then "bad-op" else fmtFr (polyScalePar t (frList a) (fr rhs))
+    | _, _, _ => "bad-op"
+  | ["msmscale", t, f, a] =>
+    match t.toNat?, parseNat? f, parseNatList? a with
+    | some t, some f, some a => if t = 0 then "bad-op" else fmtFr (msmScale (frList a) (fr f))
+    | _, _, _ => "bad-op"
+  | ["setupg", t, k, s] =>
+    -- `ParamsKZG::unsafe_setup(k, rng)` with `s` the toxic scalar: `g`
+    match t.toNat?, k.toNat?, parseNat? s with
+    | some t, some k, some s =>
+      if t = 0 ∨ k > 12 then "bad-op" else fmtPoints (setupG t frPow (fr 1) (fr s) (2 ^ k))
+    | _, _, _ => "bad-op"
+  | ["setupgl", t, k, s] =>
+    -- …and `g_lagrange` (`root` derived from `ROOT_OF_UNITY` by squaring, `n⁻¹` by inversion)
+    match t.toNat?, k.toNat?, parseNat? s with
+    | some t, some k, some s =>
+      if t = 0 ∨ k > 12 ∨ k > Gen.frS then "bad-op" else
+      let root := squareN (fr Gen.rootOfUnity) (Gen.frS - k)
+      match setupGLagrange t frPow frOptInv (fr 1) (fr s) root (frInv (fr (2 ^ k))) (2 ^ k) with
+      | some l => fmtPoints l
+      | none => "panic"
+    | _, _, _ => "bad-op"
+  | ["powers", base, n] =>
+    match parseNat? base, n.toNat? with
+    | some base, some n => fmtFr (powersTake (fr base) n)
+    | _, _ => "bad-op"
+  | ["innerf", items, scalars] =>
+    match parseNatList? items, parseNatList? scalars with
+    | some items, some scalars =>
+      match innerProduct (· * ·) (· + ·) (frList items) (frList scalars) with
+      | some v => toHex v.val
+      | none => "panic"
+    | _, _ => "bad-op"
+  | ["innerp", polys, scalars] =>
+    -- `inner_product` over `Polynomial<F, Coeff>` items of one length
+    match parseNatLists? polys, parseNatList? scalars with
+    | some polys, some scalars =>
+      match innerProduct (fun (p : List Fr) s => p.map (· * s)) (List.zipWith (· + ·)) (polys.map frList) (frList scalars) with
+      | some v => fmtFr v
+      | none => "panic"
+    | _, _ => "bad-op"
+  | ["evalsinner", sets, scalars] =>
+    match parseNatLists? sets, parseNatList? scalars with
+    | some sets, some scalars => fmtFrOpt (evalsInnerProduct (sets.map frList) (frList scalars))
+    | _, _ => "bad-op"
   | ["chunks", len, t] =>
     match len.toNat?, t.toNat? with
     | some len, some t =>
@@ -246,6 +322,19 @@ def answer (line : String) : String :=
     match curveOf c with
     | some (cp, _) => fmtAffine (toAffine cp.p cp.gen) ++ (if onCurve cp cp.gx cp.gy then " on" else " off")
     | none => "bad-op"
+  | ["msmbestw", c, w, nbytes, pairs] =>
+    -- the batch-affine loop of `msm_best` with the (forced) window size `w`: result and the
+    -- digest of every window's decision trace
+    match curveOf c, w.toNat?, nbytes.toNat?, parsePairs pairs with
+    | some (cp, table), some w, some nbytes, some pairs =>
+      if w = 0 ∨ 24 < w then "bad-op" else
+      let coeffs := pairs.map (fun bs => natToLeBytes nbytes bs.2)
+      let bases : List (Zn cp.r) := pairs.map (fun bs => Zn.ofNat cp.r bs.1)
+      let numBits := cp.r.log2 + 1
+      let k := msmBestWindows w numBits coeffs bases
+      let digests := (List.range (numBits / w + 1)).map (fun i => traceDigest (windowBestTrace i w coeffs bases))
+      fmtAffine (toAffine cp.p (cp.mulGenTable table k.val)) ++ " | " ++ fmtNatList digests
+    | _, _, _, _ => "bad-op"
   | ["msm", c, entry, t, acc0, nbytes, pairs] =>
     match curveOf c, t.toNat?, parseNat? acc0, nbytes.toNat?, parsePairs pairs with
     | some (cp, table), some t, some acc0, some nbytes, some pairs =>
